@@ -189,6 +189,8 @@ fn bif_after(parameters: &NamedParameters) -> Value {
 fn bif_all(parameters: &NamedParameters) -> Value {
   if let Some((Value::List(list), _)) = get_param(parameters, &NAME_LIST) {
     core::all(list.as_vec())
+  } else if let Some((value, _)) = get_param(parameters, &NAME_LIST) {
+    core::all(std::slice::from_ref(value))
   } else {
     parameter_not_found!(&NAME_LIST)
   }
@@ -197,6 +199,8 @@ fn bif_all(parameters: &NamedParameters) -> Value {
 fn bif_any(parameters: &NamedParameters) -> Value {
   if let Some((Value::List(list), _)) = get_param(parameters, &NAME_LIST) {
     core::any(list.as_vec())
+  } else if let Some((value, _)) = get_param(parameters, &NAME_LIST) {
+    core::any(std::slice::from_ref(value))
   } else {
     parameter_not_found!(&NAME_LIST)
   }
@@ -484,6 +488,8 @@ fn bif_matches(parameters: &NamedParameters) -> Value {
 fn bif_max(parameters: &NamedParameters) -> Value {
   if let Some((Value::List(list), _)) = get_param(parameters, &NAME_LIST) {
     core::max(list.as_vec())
+  } else if let Some((value, _)) = get_param(parameters, &NAME_LIST) {
+    core::max(std::slice::from_ref(value))
   } else {
     parameter_not_found!(&NAME_LIST)
   }
@@ -492,6 +498,8 @@ fn bif_max(parameters: &NamedParameters) -> Value {
 fn bif_mean(parameters: &NamedParameters) -> Value {
   if let Some((Value::List(list), _)) = get_param(parameters, &NAME_LIST) {
     core::mean(list.as_vec())
+  } else if let Some((value, _)) = get_param(parameters, &NAME_LIST) {
+    core::mean(std::slice::from_ref(value))
   } else {
     parameter_not_found!(&NAME_LIST)
   }
@@ -504,6 +512,8 @@ fn bif_meets(_parameters: &NamedParameters) -> Value {
 fn bif_median(parameters: &NamedParameters) -> Value {
   if let Some((Value::List(list), _)) = get_param(parameters, &NAME_LIST) {
     core::median(list.as_vec())
+  } else if let Some((value, _)) = get_param(parameters, &NAME_LIST) {
+    core::median(std::slice::from_ref(value))
   } else {
     parameter_not_found!(&NAME_LIST)
   }
@@ -516,6 +526,8 @@ fn bif_met_by(_parameters: &NamedParameters) -> Value {
 fn bif_min(parameters: &NamedParameters) -> Value {
   if let Some((Value::List(list), _)) = get_param(parameters, &NAME_LIST) {
     core::min(list.as_vec())
+  } else if let Some((value, _)) = get_param(parameters, &NAME_LIST) {
+    core::min(std::slice::from_ref(value))
   } else {
     parameter_not_found!(&NAME_LIST)
   }
@@ -540,6 +552,8 @@ fn bif_month_of_year(_parameters: &NamedParameters) -> Value {
 fn bif_mode(parameters: &NamedParameters) -> Value {
   if let Some((Value::List(list), _)) = get_param(parameters, &NAME_LIST) {
     core::mode(list.as_vec())
+  } else if let Some((value, _)) = get_param(parameters, &NAME_LIST) {
+    core::mode(std::slice::from_ref(value))
   } else {
     parameter_not_found!(&NAME_LIST)
   }
@@ -767,6 +781,8 @@ fn bif_substring_before(parameters: &NamedParameters) -> Value {
 fn bif_sum(parameters: &NamedParameters) -> Value {
   if let Some((Value::List(list), _)) = get_param(parameters, &NAME_LIST) {
     core::sum(list.as_vec())
+  } else if let Some((value, _)) = get_param(parameters, &NAME_LIST) {
+    core::sum(std::slice::from_ref(value))
   } else {
     parameter_not_found!(&NAME_LIST)
   }
